@@ -2,13 +2,47 @@
 # usage: fzrun.sh <binary> <target> <workdir> <artifact_prefix> <runs> <seed> <max_len> [<msan binary>]
 # With an MSan binary, the corpus left by the fuzz run is replayed once under MemorySanitizer.
 # Generates the seed corpus for the target, then runs libFuzzer for a fixed number of runs.
+# libFuzzer's per-input limit is wall-clock time: when the whole machine stalls (another job, a snapshot of the VM)
+# every fuzzer reports a "timeout" at once.  The unit it blames is therefore run again on its own: if that
+# finishes at once the fuzz run is repeated (once, on the corpus as it stands); if the unit really does not finish
+# within 15 minutes it is reported as a hang (FZ_VIOL).
 BIN="$1"; T="$2"; W="$3"; ART="$4"; RUNS="$5"; SEED="$6"; MAXLEN="$7"; MSAN="$8"
 rm -rf "$W/$T" && mkdir -p "$W/$T" "$(dirname "$ART")" || exit 2
 FZ_TARGET="$T" FZ_MKCORPUS="$W/$T" "$BIN" >/dev/null 2>"$W/$T.corpus.log" || { cat "$W/$T.corpus.log" >&2; echo "FZ_CORPUS_FAILED" >&2; exit 2; }
 grep -a FZ_CORPUS "$W/$T.corpus.log" >&2
-FZ_TARGET="$T" "$BIN" -runs="$RUNS" -seed="$SEED" -max_len="$MAXLEN" -timeout=20 -rss_limit_mb=4096 -print_final_stats=1 -artifact_prefix="$ART" "$W/$T"
+fuzz() {
+	FZ_TARGET="$T" "$BIN" -runs="$RUNS" -seed="$SEED" -max_len="$MAXLEN" -timeout=60 -rss_limit_mb=4096 -print_final_stats=1 -artifact_prefix="$ART" "$W/$T" 2>"$1"
+}
+fuzz "$W/$T.run.log"
 RC=$?
-[ $RC -ne 0 ] && exit $RC
+if [ $RC -ne 0 ] && grep -aq "ERROR: libFuzzer: timeout" "$W/$T.run.log"; then
+	UNIT=$(sed -n 's/.*Test unit written to \(.*timeout-[0-9a-f]*\).*/\1/p' "$W/$T.run.log" | tail -1)
+	if [ -n "$UNIT" ] && [ -f "$UNIT" ]; then
+		FZ_TARGET="$T" timeout 900 "$BIN" -timeout=0 "$UNIT" >"$W/$T.unit.log" 2>&1
+		URC=$?
+		if [ $URC -eq 0 ]; then
+			echo "FZ_STALL_RETRIED target=$T unit=$UNIT (finishes at once when run alone)" >&2
+			mv "$UNIT" "$UNIT.stall"
+			fuzz "$W/$T.run2.log"
+			RC=$?
+			cat "$W/$T.run2.log" >&2
+			[ $RC -ne 0 ] && exit $RC
+		elif [ $URC -eq 124 ]; then
+			cat "$W/$T.run.log" >&2
+			echo "FZ_VIOL hang:unit-does-not-finish the unit $UNIT does not finish within 900 s when run alone" >&2
+			exit 1
+		else
+			cat "$W/$T.run.log" "$W/$T.unit.log" >&2
+			exit $RC
+		fi
+	else
+		cat "$W/$T.run.log" >&2
+		exit $RC
+	fi
+else
+	cat "$W/$T.run.log" >&2
+	[ $RC -ne 0 ] && exit $RC
+fi
 if [ -n "$MSAN" ]; then
 	echo "FZ_MSAN_BEGIN target=$T" >&2
 	FZ_TARGET="$T" MSAN_OPTIONS=abort_on_error=1 "$MSAN" -runs=0 -timeout=60 -artifact_prefix="${ART}msan-" "$W/$T" 2>&1 | grep -a "MemorySanitizer\|#[0-9] \|DONE\|written\|FZ_VIOL\|SUMMARY" | sed 's/DONE/MSAN_DONE/' >&2
